@@ -134,6 +134,20 @@ prop('C02',
   "Not decided: the behavioural claim itself follows by the hand argument from the invariant; 2048-byte recv boundary effects; handlers re-entering read(); malformed lengths (C10).",
   "custom AST/CFG checker: role inference by def-use, guard dominance with linear bounds, effect intervals, ownership of buffer writers, must-pass-through", "DESIGN.md 5/C02")
 
+prop('C10',
+  "Static analysis of /repo's current source: decides structural necessary conditions of containment - for every loop driven by received "
+  "bytes (both framing loops, the action / queue-property / queue / stats-part list decoders, the capture-socket loops) all "
+  "loop-head-to-loop-head paths are enumerated with constant propagation and callee summaries specialised on constant arguments "
+  "(_error_handler per reason), and each must carry a step of proven positive size (wire length >= 8 guard, asserted consumed==declared, "
+  "`l < 1` raise, asserted buffer shrink, element length == len(codec object) with positive minimum length); con.read() sits in a "
+  "catch-all inside the task's main loop whose handler closes that connection and cannot break for an ordinary socket; message handlers "
+  "are called in a catch-all after the cursor advanced; the IO worker's receive hand-off sits in a catch-all that closes and drops only "
+  "that worker; error-handler results that signal 'closed' stop the loop and close() implies return False; consumed==declared is "
+  "checked before the cursor moves / before delivery; error payloads are bytes. Decides these conditions, not termination for every "
+  "byte string.",
+  "Not decided: totality over all byte strings (only the listed loops and frames are analysed); contents of error replies beyond type/code; OS-level socket errors in the accept loop.",
+  "custom AST/CFG checker: loop-progress prover over enumerated paths with constant propagation and constant-argument callee summaries, exception-containment frames, guard dominance", "DESIGN.md 5/C10")
+
 NOT_APPLICABLE = {
   'C16': "Address types: the statement is about numeric/textual agreement over the whole address domain (byte order, mask arithmetic, CIDR parsing, zero-run compression, round trips, rejection of malformed text) - results of computations on runtime values; no shape-level rule is a necessary and telling condition for it (DESIGN.md section 7).",
 }
